@@ -100,6 +100,33 @@ def check_records(ctx, recs):
             if not ru["ok"]:
                 ctx.violation(dict(kind="time-rollup-executed", yaml=r["yaml"], text=r["text"], rollup=ru, inputs=ex["inputs"],
                                    reason="executing the dump gives metrics[\"time\"] = %r, the independent roll-up is %r" % (ru.get("program"), ru.get("independent"))), True)
+    # (f) the instance count the real Hardware holds for every bound component = Arch.instances of the model on the tree as written
+    #     (C14.instances_of_local: with distinct names that is the count of the level the component is written under)
+    areqs, ametas = [], []
+    for r in recs:
+        t = r.get("time") if r.get("ok") else None
+        if not t or not t.get("inst") or not t.get("arch"):
+            continue
+        for cfg, tree in sorted(t["arch"].items()):
+            areqs.append({"op": "arch_instances", "tree": tree}); ametas.append((r, cfg))
+    for (r, cfg), a in zip(ametas, common.lean_batch(areqs)):
+        if "error" in a:
+            raise common.InternalError("lean: " + a["error"])
+        model = {c: n for c, n in a["instances"]}
+        ctx.stat("arch_trees"); ctx.stat("arch_names_distinct" if a["distinct"] else "arch_names_repeated")
+        for e, cs in sorted(r["time"]["inst"].items()):
+            if metricsinfo.config_of(r["yaml"], e) != cfg:
+                continue
+            for c, n in sorted(cs.items()):
+                if c not in model:
+                    continue
+                ok = model[c] == n
+                ctx.ob(ok); ctx.stat("instance_counts")
+                if not ok:
+                    ctx.violation(dict(kind="arch-instances", yaml=r["yaml"], text=r.get("text"), einsum=e, config=cfg, component=c, real=n, model=model[c],
+                                       names_distinct=a["distinct"],
+                                       reason="Hardware holds %d instances for component %s of Einsum %s (configuration %s); the level it is written under gives %d" % (n, c, e, cfg, model[c]),
+                                       obligation="Arch.instances (C14.instances_of_local) = Hardware.get_component(name, einsum).get_num_instances()"), a["distinct"])
     # (e) the blocks the roll-up sums over are the blocks the fusion model (Props/C13) forms for this cascade
     for r, a in zip(bmetas, common.lean_batch(breqs)):
         if "error" in a:
